@@ -1,1 +1,4 @@
 //! Harness-side code that lives inside the linked-source crate (so it can name `crate::…`).
+pub mod policy;
+pub mod sigref;
+pub mod world;
